@@ -84,7 +84,7 @@ def labelName (name : Bytes) : Bytes :=
 
 def typeName (name : Bytes) : Bytes := 37 :: escapeIdent name
 def comdatName (name : Bytes) : Bytes :=
-  if allDigits name then 36 :: 34 :: (name ++ [34]) else 36 :: escapeIdent name
+  if name.isEmpty || allDigits name then 36 :: 34 :: (name ++ [34]) else 36 :: escapeIdent name
 
 /-- enc.MetadataName; panics (index out of range) on the empty name -/
 def metadataName (name : Bytes) : Res Bytes :=
